@@ -31,6 +31,8 @@ for f in sorted(glob.glob(os.path.join(here, "seeded", "*", "meta.json"))):
         continue
     det = m.get("detected")
     how = m.get("detected_how") or ("VIOLATION with a concrete failing input as replay" if m.get("detected_with_concrete_input") else ("VIOLATION … no-failing-input-found" if det else "not caught — see notes"))
+    if m.get("obsolete"):
+        how = "caught when made; now OBSOLETE: " + m["obsolete"][:200]
     if m.get("strengthened"):
         how += "; " + (m["strengthened"] if isinstance(m["strengthened"], str) else "check strengthened after a first miss")
     out.append(f"| {name} | {m['summary'][:260].replace('|','/')} Needs: {str(m.get('needs',''))[:200].replace('|','/')} | {'yes' if det else 'NO'} | {how} |")
